@@ -192,6 +192,11 @@ func escapingEntry(c *FsCase) (int, string) {
 			}
 			continue
 		}
+		if !layer && c.Opts.Overlay && strings.HasPrefix(base, ".wh.") {
+			// overlay whiteout format: ConvertRead turns the entry into a whiteout device / opaque xattr at a
+			// path derived from its (already checked) name; its type and link fields are never used
+			continue
+		}
 		switch e.Typ {
 		case "link":
 			if layer && strings.HasPrefix(strings.Join(pushCleanFirst(nil, e.Linkname), "/"), ".wh..wh.plnk") && !strings.HasPrefix(e.Linkname, "/") && !containsUp(e.Linkname) {
